@@ -862,6 +862,40 @@ func (in *interp) refine(cond ast.Expr, val bool, st *state) {
 			}
 		}
 	case *ast.BinaryExpr:
+		// a comparison of a small-set variable with a constant filters the set
+		if o := in.p.objOf(x.X); o != nil {
+			if sv, ok := st.vars[o].(avSet); ok {
+				if cv, ok := in.constAV(x.Y).(avInt); ok {
+					var nv []int64
+					for _, e := range sv.vals {
+						var r bool
+						switch x.Op {
+						case token.EQL:
+							r = e == cv.v
+						case token.NEQ:
+							r = e != cv.v
+						case token.LSS:
+							r = e < cv.v
+						case token.LEQ:
+							r = e <= cv.v
+						case token.GTR:
+							r = e > cv.v
+						case token.GEQ:
+							r = e >= cv.v
+						default:
+							return
+						}
+						if r == val {
+							nv = append(nv, e)
+						}
+					}
+					if len(nv) > 0 {
+						st.vars[o] = normSet(nv)
+					}
+					return
+				}
+			}
+		}
 		if x.Op != token.EQL && x.Op != token.NEQ {
 			return
 		}
